@@ -84,6 +84,7 @@ class Runtime:
         self.collab = collab or {}
         self.ev_calls = 0
         self.save_calls = 0
+        self.ev2_calls = 0
         self.seqcount = {}
 
     # ---- terms -----------------------------------------------------------------------------------
@@ -258,6 +259,9 @@ class Runtime:
             if what == 'ev':
                 self.ev_calls += 1
                 idx = self.ev_calls
+            elif what == 'ev2':
+                self.ev2_calls = getattr(self, 'ev2_calls', 0) + 1
+                idx = self.ev2_calls
             else:
                 self.save_calls += 1
                 idx = self.save_calls
